@@ -73,6 +73,13 @@ def run(tier):
         bad += [rng.choice([b"\n", b" ", b"x\n"]) * rng.choice([1, 15, 16, 17, 100]) + G.mutate(rng, d) for d in docs[: ndocs // 4]]
         if tier == "thorough":
             bad += [b"\n" * 5000 + b"]", (b"a\n" * 2500) + b"[1 2"]
+        # malformed tokens of every class, at the end of the input and followed by more text: their error range lies inside the input
+        toks = [b"\\o8", b"\\o9", b"\\o", b"\\o400", b"\\o4000", b"\\o77x", b"\\u12", b"\\u", b"\\uZZZZ", b"\\u00", b"\\u123456789", b"\\newlin", b"\\ab", b"\\", b"1e", b"1e+", b"1.5.2", b"1x",
+                b"0x", b"0xG", b"2r", b"2r2", b"99r1", b"1/", b"1/0", b"1_", b"##", b"##X", b"##Na", b"#", b"#:", b"#:a", b":", b"::a", b"a/", b"/a", b"\"abc", b"\"a\\", b"\"\\u12\"",
+                b"\"\"\"\nabc", b"^", b"^:a", b"^5 x", b"#_", b"#foo", b"}", b"1N5", b"1M.", b"+", b"-", b"+a:", b"\x7f"]
+        for t in toks:
+            for ctx in (b"%s", b"[1 %s]", b"[1 %s", b"{:k %s}", b"\n\n  %s", b"[1\n %s\n 2]", b"%s 1 2 3 4 5 6 7 8 9 10 11 12", b"(\"s\" %s)"):
+                bad.append(ctx.replace(b"%s", t))
         bad = [b for b in bad if b]
         alldocs = docs + bad
         lines = K.read_lines(alldocs)
